@@ -2097,24 +2097,23 @@ def large_case(ctx, name, dtype, op, sx, sa, seed, pend):
                         ctx.fail(case | {"item": i}, f"large-item: item {i} of {op} on a batch of {n0} differs from the single call ({dtype})")
                         return
             return
-        # split along each operand axis that has the full extent
-        for which, T_, dimlen in (("X", Xt, Xt.shape[0] if len(sx) else 0), ("a", at, at.shape[0] if len(sa) else 0)):
+        # split along every axis of the RESULT (each operand is cut along its own matching axis unless it broadcasts there)
+        def cut_op(T_, shp, ax, lo, hi):
+            k2 = ax - (len(so) - len(shp))          # the operand's axis that maps to result axis `ax`
+            if k2 < 0 or shp[k2] == 1:
+                return T_
+            return T_.narrow(k2, lo, hi - lo)
+        for ax, dimlen in enumerate(so):
             if dimlen < 2:
                 continue
-            off = len(so) - (len(sx) if which == "X" else len(sa))       # axis of the result this operand axis maps to
             for cut in sorted({1, dimlen // 2, 1 << 14, dimlen - 1} & set(range(1, dimlen))):
-                if which == "X":
-                    parts = [large_call(P, name, op, Xt[:cut], at if (len(sa) < len(sx) or at.shape[0] == 1 or len(sa) > len(sx)) else at[:cut]),
-                             large_call(P, name, op, Xt[cut:], at if (len(sa) < len(sx) or at.shape[0] == 1 or len(sa) > len(sx)) else at[cut:])]
-                else:
-                    if len(sx) == len(sa) and Xt.shape[0] != 1:
-                        continue          # same-rank same-extent pair: already split together above
-                    parts = [large_call(P, name, op, Xt, at[:cut]), large_call(P, name, op, Xt, at[cut:])]
-                z2 = torch.cat(parts, off)
+                parts = [large_call(P, name, op, cut_op(Xt, sx, ax, 0, cut), cut_op(at, sa, ax, 0, cut)),
+                         large_call(P, name, op, cut_op(Xt, sx, ax, cut, dimlen), cut_op(at, sa, ax, cut, dimlen))]
+                z2 = torch.cat(parts, ax)
                 if z2.shape != Z.shape or not torch.equal(Z, z2):
                     diff = (Z != z2).reshape(n, -1).any(-1).nonzero().flatten() if z2.shape == Z.shape else torch.tensor([-1])
-                    ctx.fail(case | {"cut": cut, "axis_of": which, "item": int(diff[0])},
-                             f"large-split: {op} on lshapes {sx},{sa} differs from the concatenation of the two parts of {which} cut at {cut} "
+                    ctx.fail(case | {"cut": cut, "axis": ax, "item": int(diff[0])},
+                             f"large-split: {op} on lshapes {sx},{sa} differs from the concatenation of the two parts cut at {cut} along result axis {ax} "
                              f"(first at flat item {int(diff[0])} of {n}) ({name}, {dtype})")
                     return
         # single-item calls and the model on a sample
